@@ -122,3 +122,38 @@ def extract_columns(T, names):
     for n in names:
         out[n] = T[n]
     return out
+
+
+LAYOUTS = ["contig", "strided", "reversed", "offset-view", "readonly"]
+
+
+def relayout(a, layout):
+    """the same rows in a different memory layout (a view into a larger buffer)"""
+    n = a.shape[0]
+    if layout == "contig":
+        return a.copy()
+    if layout == "strided":
+        big = np.zeros(2 * n + 1, dtype=a.dtype)
+        big.view("u1")[...] = 0x5A
+        big[1::2] = a
+        return big[1::2]
+    if layout == "reversed":
+        big = a[::-1].copy()
+        return big[::-1]
+    if layout == "offset-view":
+        big = np.zeros(n + 3, dtype=a.dtype)
+        big.view("u1")[...] = 0xA5
+        big[2:2 + n] = a
+        return big[2:2 + n]
+    if layout == "readonly":
+        r = a.copy()
+        r.flags.writeable = False
+        return r
+    raise ValueError(layout)
+
+
+def base_bytes(a):
+    b = a
+    while isinstance(b.base, np.ndarray):
+        b = b.base
+    return np.ascontiguousarray(b).view("u1").tobytes()
